@@ -6,7 +6,8 @@
   Code k mapped; use-after-free is an explicit `Fault`).
   The declaration-level mechanism — field order of `ModuleData`, `TypedFunc`
   owning `self.inner.clone()`, what `codegen` clones into the module, who calls
-  `free_memory`, what the closure made by `TypedFunc::into_func` captures, and
+  `free_memory`, what the closure made by `TypedFunc::into_func` captures, that a
+  `TestCase` stores the handle of its test function, and
   which struct owns every piece of data whose address the code generator bakes
   into the machine code — is `Gen.Lifetime.facts`, regenerated from src/codegen/mod.rs,
   src/pipeline.rs and src/runtime/func.rs on every run.  Every theorem below is
@@ -32,7 +33,8 @@ theorem facts_good : goodB facts = true := by decide
 theorem inv (ops : List Op) : Inv (run facts ops) := inv_run (good_of_goodB facts_good) ops
 
 /-- **T1.** After any history, every live handle — also one that was turned
-    into a closure by `into_func` — has its module, code, script constants and
+    into a closure by `into_func`, and the one inside a `TestCase` handed out by
+    `get_tests` — has its module, code, script constants and
     (if its script uses them) registered constant and closure never released and
     every piece of out-of-line data its code refers to still there, a call
     through it returns what it returned when
@@ -204,6 +206,16 @@ example : (run facts reloadFn).hs.map (·.isFn) = [true] ∧ callHandle (run fac
     ∧ (run facts (reloadFn ++ [.cloneHandle 0])).hs.length = 1
     ∧ (run facts (reloadFn ++ [.dropHandle 0])).relCount (.code 1) = 1
     ∧ (run facts (reloadFn ++ [.dropHandle 0])).relCount (.closure 0) = 1 := by
+  decide
+
+/-- a `TestCase` keeps its module alive like a handle, and releases it when dropped -/
+example : let h := [Op.buildRuntime 0, .registerClosure 0, .compile 0 1 1 false true true 77, .getTest 1,
+                    .dropPackage 1, .dropRuntime 0]
+    callHandle (run facts h) 0 = some (.ok 77) ∧ (run facts h).relCount (.code 1) = 0
+      ∧ (run facts h).relCount (.closure 0) = 0
+      ∧ (run facts (h ++ [.dropHandle 0])).relCount (.code 1) = 1
+      ∧ (run facts (h ++ [.dropHandle 0])).relCount (.closure 0) = 1
+      ∧ callHandle (run { facts with testHoldsHandle := false } h) 0 = some .uaf := by
   decide
 
 /-- T5's hypotheses are met by a freshly obtained handle -/
